@@ -172,6 +172,20 @@ fn map_position_checks(content: &str, input: &str) -> (Option<String>, Option<St
         if !inside && outside.is_none() {
             outside = Some(format!("generated {}:{} -> {}:{} (input has {} lines)", t.get_dst_line(), t.get_dst_col(), sl, sc, in_lines.len()));
         }
+        // every token that is not part of injected code widens the original line range of its generated line
+        {
+            let gl = t.get_dst_line() as usize;
+            let gc = t.get_dst_col() as usize;
+            let starts_injected = out_lines.get(gl).map(|l| {
+                let rest: String = String::from_utf16_lossy(&l[gc.min(l.len())..]);
+                rest.starts_with("_ddiast") || rest.starts_with("__datadog_") || rest.starts_with("let __datadog_")
+            }).unwrap_or(false);
+            if !starts_injected && (sl as usize) < in_lines.len() {
+                let e = copied_lines.entry(t.get_dst_line()).or_insert((sl, sl));
+                e.0 = e.0.min(sl);
+                e.1 = e.1.max(sl);
+            }
+        }
         if let Some(id) = ident_at(&out_lines, t.get_dst_line(), t.get_dst_col()) {
             let injected = id.starts_with("__datadog_") || id == "_ddiast" || id == "let" || id == "undefined" || id == "null" || id == "call" || id == "apply";
             // a member name right after an injected temporary (`__datadog_test_1.call`) or after `_ddiast.` is injected too
@@ -213,8 +227,35 @@ fn map_position_checks(content: &str, input: &str) -> (Option<String>, Option<St
 }
 fn injected_push(v: &mut Vec<(u32, u32, u32)>, gl: u32, gc: u32, sl: u32) { v.push((gl, gc, sl)); }
 
+/// names dereferenced on the hook namespace, in order: `_ddiast . NAME` with any white space and comments in between (with
+/// comments kept, swc prints the comments of the original expression between `_ddiast` and `.NAME`)
+fn hook_names(code: &str) -> Vec<String> {
+    let b = code.as_bytes();
+    let mut out = Vec::new();
+    let mut from = 0;
+    while let Some(i) = code[from..].find("_ddiast") {
+        let start = from + i;
+        let mut k = start + 7;
+        from = k;
+        if start > 0 && (b[start - 1].is_ascii_alphanumeric() || b[start - 1] == b'_' || b[start - 1] == b'$' || b[start - 1] == b'.') { continue; }
+        loop {
+            while k < b.len() && (b[k] as char).is_whitespace() { k += 1; }
+            if code[k..].starts_with("/*") { match code[k..].find("*/") { Some(e) => { k += e + 2; continue; } None => break } }
+            if code[k..].starts_with("//") { match code[k..].find('\n') { Some(e) => { k += e + 1; continue; } None => break } }
+            break;
+        }
+        if k < b.len() && b[k] == b'.' {
+            k += 1;
+            while k < b.len() && (b[k] as char).is_whitespace() { k += 1; }
+            let name: String = code[k..].chars().take_while(|c| c.is_ascii_alphanumeric() || *c == '_' || *c == '$').collect();
+            if !name.is_empty() { out.push(name); }
+        }
+    }
+    out
+}
+
 fn count_hooks(code: &str) -> usize {
-    code.matches("_ddiast.").count()
+    hook_names(code).len()
 }
 
 fn main() {
@@ -558,29 +599,14 @@ fn main() {
                 "hangs" => false,
                 // every hook name the output dereferences has a pass-through in the file prologue (`NAME: noop`)
                 "hook_missing_in_prologue" => {
-                    let mut bad = None;
-                    let mut rest = code.as_str();
-                    while let Some(i) = rest.find("_ddiast.") {
-                        let tail = &rest[i + 8..];
-                        let name: String = tail.chars().take_while(|c| c.is_ascii_alphanumeric() || *c == '_' || *c == '$').collect();
-                        // any property definition of that name in the output counts (`name: ..`, `name : ..`, `'name': ..`, `["name"] = ..`)
-                        let defined = [format!("{name}:"), format!("{name} :"), format!("'{name}'"), format!("\"{name}\"")].iter().any(|p| code.contains(p.as_str()));
-                        if !name.is_empty() && !defined && bad.is_none() { bad = Some(name.clone()); }
-                        rest = &tail[name.len()..];
-                    }
+                    // any property definition of that name in the output counts (`name: ..`, `name : ..`, `'name': ..`, `["name"] = ..`)
+                    let bad = hook_names(&code).into_iter().find(|name| ![format!("{name}:"), format!("{name} :"), format!("'{name}'"), format!("\"{name}\"")].iter().any(|p| code.contains(p.as_str())));
                     println!("--- hook used without a pass-through in the prologue: {:?}", bad);
                     bad.is_some() == v.as_bool().unwrap()
                 }
                 "unconfigured_hook_referenced" => {
                     let allowed: Vec<String> = methods.iter().map(|m| m.dst.clone()).collect();
-                    let mut bad = None;
-                    let mut rest = code.as_str();
-                    while let Some(i) = rest.find("_ddiast.") {
-                        let tail = &rest[i + 8..];
-                        let name: String = tail.chars().take_while(|c| c.is_ascii_alphanumeric() || *c == '_' || *c == '$').collect();
-                        if !allowed.contains(&name) && bad.is_none() { bad = Some(name.clone()); }
-                        rest = &tail[name.len()..];
-                    }
+                    let bad = hook_names(&code).into_iter().find(|n| !allowed.contains(n));
                     println!("--- unconfigured hook name referenced: {:?}", bad);
                     bad.is_some() == v.as_bool().unwrap()
                 }
@@ -594,7 +620,10 @@ fn main() {
                         let ok = *line >= 1 && *col >= 1 && lines.get(line - 1).map(|l| {
                             let q = l.get(col - 1).copied();
                             let quote_ok = matches!(q, Some('\'') | Some('"') | Some('`'));
-                            let text_ok = !plain || { let rest: String = l.iter().skip(*col).collect(); val.chars().any(|c| c.len_utf16() == 2) || rest.starts_with(val.as_str()) || !rest.contains(q.unwrap_or('"')) };
+                            let text_ok = !plain || { let rest: String = l.iter().skip(*col).collect();
+                                // (an escape sequence in the raw text - `\\-`, `\\x41` - makes raw text and value differ: position only)
+                                let raw_has_escape = rest.split(q.unwrap_or('"')).next().map(|r| r.contains('\\')).unwrap_or(false);
+                                raw_has_escape || val.chars().any(|c| c.len_utf16() == 2) || rest.starts_with(val.as_str()) || !rest.contains(q.unwrap_or('"')) };
                             quote_ok && text_ok
                         }).unwrap_or(false);
                         if !ok && bad.is_none() { bad = Some(format!("{:?} reported at {}:{}", val, line, col)); }
